@@ -1,5 +1,5 @@
 import sys, random
-sys.path.insert(0,'/tmp/seed7_C05/seeds')
+sys.path.insert(0,'/verif/probes/agent_oracles/c05_round7')
 from harness import *
 random.seed(int(sys.argv[1]) if len(sys.argv)>1 else 0)
 forms = [('(x>=1) and (y<=2)',['x','y']), ('(x>=1) since (y<=2)',['x','y']), ('(x>=1) since[1,2] (y<=2)',['x','y']),
